@@ -2690,3 +2690,8 @@ Proof.
   - vm_compute. reflexivity.
   - vm_compute. reflexivity.
 Qed.
+
+(* the executable specification of the constructor's layout (HTFCDefs.htfc_layout) reproduces the dumped
+   textStrings / blStrings of both objects *)
+Lemma hx_layout : htfc_layout_chk hx_usa_S hx_usa_d = true /\ htfc_layout_chk hx_r128c_S hx_r128c_d = true.
+Proof. vm_compute. auto. Qed.
